@@ -28,9 +28,14 @@ RULE = ('cases = (active level 0..6, prefix size 0..80, 0..4 groups (levels 0..5
         'malformed keys (must be refused: observed as a status) or keys from corners the documented syntax does not settle (trailing ",", "@" without number, "," as alias, level number '
         'that wraps the unsigned: correspondence with the model only); the oracle reads the key with its own reference reading of the syntax (omitted @level = level of the declaring '
         'group when the key has a "," part, level of the value for a plain key) and derives the expected visibility from that; '
+        'EVERY case also prints its help through the library\'s own printer Application::printHelp (an Application subclass that does not override it; what `--help` runs: FileOut(stdout) + printf) '
+        'with fd 1 redirected into a temporary file: the captured bytes must be name/version line, usage, description(), usage, "Default command-line:", "<name> " + defaults(len(name)+1) with the '
+        'very description() / defaults() bytes of the observation (application name of prefix-1 characters); 12 % of the defaults are percent shapes (%%, 80%, out%d.lp, %5d, %s ...; "%" is in the '
+        'default alphabet anyway), one fixed case has %n; '
         'non-trivial = at least one option is visible at the active level; distinct = distinct case tuples')
 TRUSTED_BASE = ['sprintf / vector<char> / std::string are modelled (sprintf: the four directives that occur, "write k bytes and a NUL")',
-                'props/C19.py reference rendering (oracle on the implementation)']
+                'props/C19.py reference rendering (oracle on the implementation)',
+                'harness/h_c19.cpp: capture of stdout around Application::printHelp (dup2 on fd 1 into a tmpfile) and its byte comparison with the direct description()/defaults() calls']
 ASSUMPTIONS = ['names, argument names, descriptions, defaults are NUL-free C strings; option names are ASCII without , ! = blank quote backslash and unique',
                'key strings are NUL-free; `unsigned` is 32 bits wide (the level number of a key is accumulated in an unsigned); keys from the corners the documented syntax does not '
                'settle ("name,a,", "name,a,@", "name,,", level numbers of more than 9 digits, group level above 5) are compared with the model but not judged by the oracle',
@@ -45,7 +50,8 @@ LEVEL_TEXT = ('Machine-checked proofs (Coq): no sprintf of DefaultFormat::format
               'the key syntax name[!][,alias][,@level] of the option-init helper accepts exactly the keys of a declaratively given form and declares exactly the option each denotes (an omitted '
               '@level = the level of the declaring group at declaration time as soon as the key has a "," part), refuses every other byte string, and reads back what is rendered. '
               'The model is tied to the code by differential correspondence (ASan/UBSan build) '
-              'and an independent python oracle that also runs the real parseCommandString on the real defaults().')
+              'and an independent python oracle that also runs the real parseCommandString on the real defaults(). The help printed by Application::printHelp (FileOut + printf path behind --help) is '
+              'captured on every case and must consist of exactly the description() and defaults() bytes the proofs are about (tested, not proved: printf itself is outside the model).')
 LEVEL_NOTE = 'The default command line parses back only for command-line safe defaults (known findings for blank / quote / backslash / empty defaults).'
 
 LEVEL_ALL = 4
@@ -302,6 +308,18 @@ def oracle(c, obs):
         # context never registered (not in begin()..end() / not found by tryFind), or a refused name is known, or an add was not refused
         # (the rest of the observation is still judged: the help text and the default command line must list the registered options only)
         return (oracle(c, obs[1:]) + ['context-inconsistent-after-refused-add'])
+    if obs and obs[0] == -996:
+        # the help printed by the library's own printer Application::printHelp (what `--help` of an Application shows: FileOut(stdout) + printf) is not
+        # "<name> version ..", usage, description(), usage, "Default command-line:", "<name> " + defaults(len(name)+1): obs = -996 flags len bytes.. rest
+        fl, n = (obs[1], obs[2]) if len(obs) >= 3 else (3, 0)
+        shown = obs[3:3 + n]
+        extra = []
+        if fl & 1:
+            extra.append('application-help-differs-from-context-description')
+        if fl & 2 or not extra:
+            # `shown` = what was printed behind "Default command-line:\n"
+            extra.append('application-default-command-line-differs')
+        return oracle(c, obs[3 + n:]) + extra
     dl = min(active, LEVEL_ALL)
     pos = [0]
 
@@ -427,6 +445,8 @@ def nontrivial(c, obs):
 # ---------------------------------------------------------------- generation
 NAME_CH = 'abcdefghijklmnopqrstuvwxyz0123456789_-'
 SAFE_CH = 'abcxyzABC0123456789,.:;+-_=/<>[]{}|%#@!~^&*()?'
+# defaults with percent signs (printf-style templates, percentages): legal, command-line safe, and poison for a help printer that lets them reach a printf FORMAT
+PCT_DEFAULTS = ['%%', '80%', '100%%', 'out%d.lp', '%d', '%5d', 'a%%b', '%', '%i-%u', 'log-%x.txt', '%c', '%%%%', '%ld', '%08.3f', 'x%', '%%d', '50%,25%', '%s']
 UNSAFE = ['a b', 'a  b', ' a', 'a ', "'a'", '"a b"', 'a\\"b', 'a\\\\b', "a'b", '', '\\\\', "a\\'", 'x y z']
 
 
@@ -540,6 +560,8 @@ def gen_case(rnd, p_unsafe, p_refused=False, p_merge=False):
             if rnd.random() < 0.55:
                 if rnd.random() < p_unsafe:
                     d = rnd.choice(UNSAFE)
+                elif rnd.random() < 0.12:
+                    d = rnd.choice(PCT_DEFAULTS)
                 else:
                     d = ''.join(rnd.choice(SAFE_CH) for _ in range(rnd.choice([1, 1, 2, 4, 8, 30, 70, 76, 90])))
                     if d.startswith('-'):
@@ -581,6 +603,8 @@ def rand_value_fields(rnd, p_default=0.75):
     e += ([1] + enc_str(rnd.choice(['1', 'yes', 'auto']))) if rnd.random() < 0.25 else [0]
     if rnd.random() < p_default:
         d = ''.join(rnd.choice(SAFE_CH) for _ in range(rnd.choice([1, 1, 2, 4, 8])))
+        if rnd.random() < 0.1:
+            d = rnd.choice(PCT_DEFAULTS)
         e += [1] + enc_str('x' + d[1:] if d.startswith('-') else d)
     else:
         e += [0]
@@ -718,6 +742,15 @@ FIXED = [
     + enc_str('Empty') + [0, 0] + enc_str('Extra') + [0, 2] + _opt('gamma', arg='<n>', dflt='3', desc='third [%D]') + _opt('delta', arg='<n>', dflt='4', desc='fourth [%D]')
     + [4, 1, 0, 1, 1, 2, 2, 1, 2, 0, 0, 2, 2, 3, 0, 1, 0, 1, 0, 0, 3],
 ]
+
+
+# defaults with percent signs, printed through Application::printHelp by the harness (seeded C19-r15: the default command line spliced into a printf format):
+# the demonstration (a progress template '%%', a file-name template, a percentage), every level; '%s'; and - ONE case only - '%n'
+FIXED += [[lv, 5, 2] + enc_str('Output') + [0, 3] + _opt('progress', arg='<fmt>', dflt='%%', desc='Progress format [%D]') + _opt('out', alias=111, arg='<file>', dflt='out%d.lp', desc='Output file %A')
+          + _opt('limit', level=1, arg='<p>', dflt='80%', desc='Limit (%D)') + enc_str('Expert') + [2, 1] + _opt('ratio', dflt='50%,25%', desc='%D%%') for lv in (0, 1, 2)]
+FIXED += [[0, 0, 1] + enc_str('') + [0, 2] + _opt('template', dflt='%s', desc='string template, never to be handed to printf as a format: a %%s there reads a pointer that is not there')
+          + _opt('count', dflt='%5d', desc='')]
+FIXED += [[0, 3, 1] + enc_str('G') + [0, 1] + _opt('written', dflt='a%nb', desc='never to be handed to printf as a format: a %%n there WRITES through a pointer that is not there (this is the only case with it)')]
 
 
 def _merge_fixed():
